@@ -18,8 +18,8 @@ import (
 func (c *callRec) mark() { c.marked = true }
 
 func (w *CliWorld) bgTransactions() int {
-	if w.relay != nil || w.tcpAlloc != nil || w.stream {
-		return 1 << 20 // refresh traffic runs in the background (or the wire is a stream, which the observer does not parse): the table is not judged
+	if w.relay != nil || w.tcpAlloc != nil || w.hostileStream() {
+		return 1 << 20 // refresh traffic runs in the background (or a hostile stream has ended the client's read loop): the table is not judged
 	}
 	return 0
 }
@@ -416,7 +416,7 @@ func (w *CliWorld) unblockInstant(c *callRec) int64 {
 }
 
 func (w *CliWorld) livenessRelay(now int64, stalled bool) {
-	if w.stream {
+	if w.hostileStream() {
 		return // bytes that cannot start a frame end a stream for good: only crashes, spins and hangs are judged there
 	}
 	if stalled {
